@@ -245,6 +245,15 @@ def _field_variants(cd, f, v):
     if f.array:
         if len(v) > 0:
             yield []
+            if len(v) > 4:
+                yield v[: len(v) // 2]
+                yield v[len(v) // 2 :]
+                yield v[:-1]
+                yield v[1:]
+            if len(v) > 16:  # long arrays: per-item variants only for the first few items
+                for i in range(4):
+                    yield v[:i] + v[i + 1 :]
+                return
             for i in range(len(v)):
                 yield v[:i] + v[i + 1 :]
             for i, item in enumerate(v):
